@@ -225,12 +225,18 @@ def eval_group(env, group, tier):
             core.materialise(root, tree)
             names = sorted(p for p, n, l in core.walk_tree(tree))
             for cols in (['width', 'height'], ['duration'], ['exif_make', 'exif_lat'], ['mp3_title', 'mp3_year'], ['width', 'duration', 'exif_model', 'size'],
-                         ['bitrate', 'freq', 'genre'], ['artist', 'album']):
+                         ['bitrate', 'freq', 'genre'], ['artist', 'album'], ['@modified >= exif_datetime'], ['@modified < exif_datetime'], ['@modified = exif_datetime'],
+                         ['@accessed != exif_datetime'], ['@exif_datetime <= modified']):
                 for form in ('select', 'where'):
                     sub = ['media', cols, form]
                     if only is not None and sub != only:
                         continue
-                    if form == 'select':
+                    if cols[0].startswith('@'):
+                        # a date column compared with a date that most entries do not have: no match there, the search goes on
+                        if form == 'select':
+                            continue
+                        q = 'path, size from . where %s or size >= 0 into list' % cols[0][1:]
+                    elif form == 'select':
                         q = 'path, size, ' + ', '.join(cols) + ' from . into list'
                     else:
                         q = "path, size from . where " + ' or '.join("%s = 'zz'" % c for c in cols if c != 'size') + " or size >= 0 into list"
@@ -280,8 +286,12 @@ def eval_group(env, group, tier):
             if clean.rc != 0 or clean.err:
                 raise core.MachineryError('clean content run failed %r' % clean.brief())
             ref = {r[0]: r for r in clean.rows(len(cols))}
-            agg_q = 'count(*), sum(size), sum(line_count) from . where is_file = true into list'
-            agg_clean = env.run([agg_q], cwd=root).rows(3)[0]
+            agg_q = ('count(*), sum(size), sum(line_count), avg(line_count), var_pop(line_count), var_samp(line_count), stddev_pop(line_count), min(line_count), max(line_count) '
+                     'from . where is_file = true into list')
+            agg_clean = env.run([agg_q], cwd=root).rows(9)[0]
+            all_lines = {n: d.count(b'\n') for n, d in list(files.items()) + [('inner', b'NEEDLE\n')]}
+            if [agg_clean[2], agg_clean[7], agg_clean[8]] != [str(sum(all_lines.values())), str(min(all_lines.values())), str(max(all_lines.values()))]:
+                raise core.MachineryError('line count model differs on the clean tree: %r %r' % (agg_clean, all_lines))
             for victim in files:
                 sub = [victim]
                 if only is not None and sub != only:
@@ -325,11 +335,19 @@ def eval_group(env, group, tier):
                         elif tuple(r) != tuple(e):
                             bad = ('other-row-changed', {'row': n, 'got': r, 'expected': e})
                     if not bad and effective:
-                        ra = oa.rows(3)
+                        ra = oa.rows(9)
                         exp_cnt = agg_clean[0]
-                        exp_lines = str(int(agg_clean[2]) - files[victim].count(b'\n'))
+                        vals = [v for n, v in all_lines.items() if n != victim]
+                        exp_lines = str(sum(vals))
+                        mean = sum(vals) / len(vals)
+                        varp = sum((v - mean) ** 2 for v in vals) / len(vals)
+                        vars_ = sum((v - mean) ** 2 for v in vals) / (len(vals) - 1)
+                        close = lambda got, want: got not in ('', 'NaN') and abs(float(got) - want) <= 1e-9 * max(1.0, abs(want))
                         if not ra or ra[0][0] != exp_cnt or ra[0][1] != agg_clean[1] or ra[0][2] != exp_lines:
                             bad = ('aggregate-over-readable-data', {'got': ra, 'expected': [exp_cnt, agg_clean[1], exp_lines]})
+                        elif not (close(ra[0][3], mean) and close(ra[0][4], varp) and close(ra[0][5], vars_) and close(ra[0][6], varp ** 0.5)
+                                  and ra[0][7] == str(min(vals)) and ra[0][8] == str(max(vals))):
+                            bad = ('statistics-over-readable-data', {'got': ra[0][3:], 'expected': [mean, varp, vars_, varp ** 0.5, min(vals), max(vals)]})
                 emit(sub, bad is None, 'file-fault:' + (bad[0] if bad else ''), {'fault': fk, 'victim': victim, 'why': bad[1] if bad else None, 'query': q},
                      nt=effective, sig=(fk, victim, effective))
         elif kind == 'links':
